@@ -49,8 +49,9 @@ def errMsg : FErr → String
   | .writer e => ConvD.werrMsg e
   | .codec .atEmpty => "exc:out_of_range"
   | .codec .stackEmpty => "err:loopCmdWithoutStart"
+  | .codec .stackEmpty => "err:loopCmd"          -- InputError since repository fix c5dd456
   | .indexRange => "err:indexRange"
-  | .headerWrap => "UB:header-wrap"
+  | .headerWrap => "err:headerTooLarge"       -- InputError since repository fix 8d409a9
   | .seqTooLarge => "err:seqTooLarge"
   | .bankIndex => "UB:bank-index"
   | .riff _ => "exc:riff"
